@@ -168,16 +168,95 @@ def bracket(prog, rep, sites, method, label, is_open, is_close, is_abort):
               "the bracket spans %d connection-mutex acquisitions" % len(locks), F.loc())
 
 
+MARKERS = ("save_processed_message", "save_processed_welcome")
+WRITE_PREFIXES = ("save_", "replace_", "invalidate_", "mark_", "rollback_", "release_", "create_group_snapshot", "delete_", "prune_")
+
+
+def _is_storage_write(c):
+    return (c.trait or "").startswith("mdk_storage_traits::") and c.name.startswith(WRITE_PREFIXES)
+
+
+def clause_marker_last(prog, rep):
+    """retrying an interrupted call only works if the record the dedup lookup short-circuits on is the *last* thing the call writes: a
+    write that follows it is lost when the process dies in between, because the retry finds the record and stops.  Decided for the
+    receive path (process_message, process_welcome): after the success edge of a save_processed_* call no further storage write is
+    reachable in the same function (through helpers that can still return Ok)."""
+    import common as K
+    import analysis as A
+    core = K.core_scope(prog)
+    roots = prog.find(adt="MDK", name="process_message", crate="mdk_core") + prog.find(adt="MDK", name="process_welcome", crate="mdk_core")
+    scope = set(p for p in prog.reachable(roots) if p in core)
+    direct = lambda c: (c.trait or "").startswith("mdk_storage_traits::") and c.name in MARKERS
+    mk = A.ReachCache(prog, direct)
+    wr = A.ReachCache(prog, _is_storage_write)
+
+    def writes_then_ok(t, pred):
+        """does workspace fn t (or what it calls) make a pred() call after which it can still return Ok?"""
+        for q in sorted(prog.extent(t)):
+            g = prog.fns.get(q)
+            if not g or g.crate != "mdk_core" or g.is_test_like():
+                continue
+            for x in g.live_calls():
+                if pred(x) and "to" in x.t and A.ok_return_reachable(g, x.t["to"], frozenset()):
+                    return True
+        return False
+
+    n = 0
+    for p in sorted(scope):
+        f = prog.fns[p]
+        if f.is_closure():
+            continue
+        for m in f.live_calls():
+            if "to" not in m.t or not mk.call(m):
+                continue
+            if not direct(m) and not any(writes_then_ok(t, direct) for t in prog.call_targets(m)):
+                continue        # a helper that writes the record only on its failure paths (preview: Failed record, then Err)
+            n += 1
+            starts = set(sx for (w, sx) in A.success_edges(f, [m])) or {m.t["to"]}
+            after = set()
+            for b in starts:
+                after |= f.reachable_from(b)
+            later = []
+            for c in f.live_calls():
+                if c is m or c.bb not in after or not wr.call(c):
+                    continue
+                if _is_storage_write(c) or any(writes_then_ok(t, _is_storage_write) for t in prog.call_targets(c)):
+                    later.append(c)
+            def trait_names(x, pred):
+                """the storage-trait methods a call stands for (itself, or what the helper it names reaches), so that the key does not
+                depend on how the writes are wrapped"""
+                if pred(x):
+                    return [x.name]
+                out = set()
+                for t in prog.call_targets(x):
+                    for q in prog.extent(t):
+                        g = prog.fns.get(q)
+                        if g and g.crate == "mdk_core" and not g.is_test_like():
+                            out |= set(y.name for y in g.live_calls() if pred(y))
+                return sorted(out) or [x.name]
+            mname = "+".join(trait_names(m, direct))
+            for c in later:
+                cname = "+".join(n_ for n_ in trait_names(c, _is_storage_write) if n_ not in MARKERS) or c.name
+                rep.violation("marker-last", "%s/%s-after-%s" % (f.label(), cname, mname),
+                              "%s writes the processed record (%s) and afterwards still calls %s: if the process dies between the two, the retry "
+                              "finds the record, stops, and the later write never happens" % (f.label(), m.name, c.name), c.loc())
+            if not later:
+                rep.ok("marker-last", "%s/%s" % (f.label(), m.name), "no storage write follows the processed record", m.loc())
+    rep.floor("marker-last", "processed-record writes on the receive path", n, 5)
+
+
 def run(ctx, rep):
     prog = ctx.prog()
     sites = sqlmod.collect(prog)
     rep.fns_analysed = len(list(prog.nontest_fns(("mdk_sqlite_storage",))))
     rep.counts["sql_statements"] = len(sites)
     rep.clause("C12.a snapshot creation and restore (SQLite): one BEGIN..COMMIT bracket (or a rusqlite Transaction guard) success-dominating every write, COMMIT on every Ok return, ROLLBACK on every error exit, one connection guard")
+    rep.clause("C12.c receive path: the processed record a retry short-circuits on is the last storage write of the call (marker-last)")
     rep.clause("C12.b replace_group_relays: DELETE and INSERTs inside SAVEPOINT..RELEASE with ROLLBACK TO on the error side")
     rep.not_decided = ("recoverability after process death at statement k of process_message / create_group / merge_pending_commit / "
                        "accept_welcome (these API calls are sequences of auto-committed statements — visible in the code, but what state "
                        "OpenMLS can still load after each prefix is a runtime question no sound static argument here can bound)")
+    clause_marker_last(prog, rep)
     ms = {
         "create_group_snapshot": prog.find(adt="MdkSqliteStorage", name="create_group_snapshot", trait="MdkStorageProvider"),
         "rollback_group_to_snapshot": prog.find(adt="MdkSqliteStorage", name="rollback_group_to_snapshot", trait="MdkStorageProvider"),
